@@ -34,6 +34,8 @@ Spec (plain dict; numpy arrays allowed, `common.jsonable` makes it JSON):
                'pressure_points','smoothing_window'}
   fill_gases: ['H2','He'], ratio: 0.17
   gases: [{'mol':'H2O','type':'constant','mix':1e-4} | {'mol':..,'type':'array','mix':[...]}]
+  chem_kind: absent (TaurexChemistry) | 'table' (plugin-style Chemistry subclass) | 'makefree-file' (ChemistryFile wrapped
+             with MakeFreeMixin; then chem_file: {'gases': [...], 'table': [gas][layer]} and `gases` are the free gases)
   opacities: [{'mol','wn','t','p','xsec','mode'}]        cia: [{'pair','wn','t','xsec'}]
   contributions: [{'type':'absorption'} | {'type':'cia','pairs':[..]} | {'type':'rayleigh'} |
                   {'type':'clouds','clouds_pressure':..} | {'type':'flatmie','flat_mix_ratio','flat_bottomP','flat_topP'} |
@@ -190,6 +192,8 @@ def make_temperature(tspec):
 def make_chemistry(spec):
     from taurex.data.profiles.chemistry import TaurexChemistry, ConstantGas
     from taurex.data.profiles.chemistry.gas.arraygas import ArrayGas
+    if spec.get('chem_kind') == 'makefree-file':
+        return makefree_file_chemistry(spec)
     fill = list(spec.get('fill_gases', ['H2', 'He']))
     ratio = spec.get('ratio', 0.17567)
     if len(fill) == 1:
@@ -203,6 +207,35 @@ def make_chemistry(spec):
             chem.addGas(ArrayGas(g['mol'], mix_ratio_array=np.asarray(g['mix'], float)))
     if spec.get('chem_kind') == 'table':
         return table_chemistry(chem)
+    return chem
+
+
+def makefree_file_chemistry(spec):
+    """`chem_kind='makefree-file'`: a tabulated chemistry (`ChemistryFile`, keyword 'file': one column per molecule of
+    `spec['chem_file']['gases']`, one row per layer, `spec['chem_file']['table'][gas][layer]`) enhanced with the
+    `MakeFreeMixin` (keyword 'makefree'), every entry of `spec['gases']` handed to its `addGas`: a molecule of the file is
+    REPLACED by the free gas, any other molecule is added; the mixin renormalises.  `fill_gases` / `ratio` are not used.
+    The file is written to a scratch directory and removed once the chemistry has read it."""
+    import os
+    import shutil
+    import tempfile
+    from taurex.mixin import enhance_class, MakeFreeMixin
+    from taurex.data.profiles.chemistry.filechemistry import ChemistryFile
+    from taurex.data.profiles.chemistry import ConstantGas
+    from taurex.data.profiles.chemistry.gas.arraygas import ArrayGas
+    cf = spec['chem_file']
+    d = tempfile.mkdtemp(prefix='verif_chem_')
+    try:
+        fn = os.path.join(d, 'chemistry.dat')
+        np.savetxt(fn, np.asarray(cf['table'], float).T, fmt='%.17e')
+        chem = enhance_class(ChemistryFile, MakeFreeMixin, gases=[str(g) for g in cf['gases']], filename=fn)
+    finally:
+        shutil.rmtree(d, ignore_errors=True)
+    for g in spec.get('gases', []):
+        if g.get('type', 'constant') == 'constant':
+            chem.addGas(ConstantGas(g['mol'], mix_ratio=float(g['mix'])))
+        else:
+            chem.addGas(ArrayGas(g['mol'], mix_ratio_array=np.asarray(g['mix'], float)))
     return chem
 
 
